@@ -58,6 +58,16 @@ impl Filt {
     }
 }
 
+fn level_filter(l: u8) -> LevelFilter {
+    match l {
+        0 => LevelFilter::ERROR,
+        1 => LevelFilter::WARN,
+        2 => LevelFilter::INFO,
+        3 => LevelFilter::DEBUG,
+        _ => LevelFilter::TRACE,
+    }
+}
+
 struct PassThrough<const N: usize>;
 struct Marker<const N: usize>(#[allow(dead_code)] u32);
 
@@ -78,11 +88,14 @@ pub struct Config {
     /// present, so that the registry still creates every (globally enabled) span. Used for C16 only
     /// (no panic; what a layer captures in a stack equals what it captures alone).
     pub per_layer: bool,
+    /// Build the stack as nested `Layered` values (`Registry::default().with(a).with(b)…`), the way
+    /// applications do, instead of a `Vec` of boxed layers (level hints are combined differently).
+    pub nested: bool,
 }
 
 impl Config {
     pub fn parse(rest: &[String]) -> Self {
-        let mut cfg = Config { layers: vec![Filt::All], global: None, pass: vec![], per_layer: false };
+        let mut cfg = Config { layers: vec![Filt::All], global: None, pass: vec![], per_layer: false, nested: false };
         for l in rest {
             let mut t = Toks::new(l);
             match t.next() {
@@ -100,6 +113,7 @@ impl Config {
                 }
                 Some("gfilter") => cfg.global = t.num(),
                 Some("perlayer") => cfg.per_layer = t.num::<u8>() == Some(1),
+                Some("nested") => cfg.nested = t.num::<u8>() == Some(1),
                 Some("pass") => {
                     if let Some(p) = t.num() {
                         cfg.pass.push(p);
@@ -111,8 +125,49 @@ impl Config {
         cfg
     }
 
+    /// A capture layer with this configuration's way of filtering, as a helper returning the pair —
+    /// every call creates its storage handle in the same stack slot, as a loop or a helper
+    /// function in an application would.
+    fn make_layer<S>(&self, f: &Filt) -> (Box<dyn Layer<S> + Send + Sync>, SharedStorage)
+    where
+        S: tracing_core::Subscriber + for<'a> tracing_subscriber::registry::LookupSpan<'a> + 'static,
+    {
+        let storage = SharedStorage::default();
+        let layer = CaptureLayer::<S>::new(&storage);
+        let boxed: Box<dyn Layer<S> + Send + Sync> = match f.clone() {
+            Filt::All => Box::new(layer),
+            Filt::Level(l) if self.per_layer => Box::new(Layer::with_filter(layer, level_filter(l))),
+            Filt::Level(l) => Box::new(layer.with_filter(level_filter(l))),
+            f if self.per_layer => Box::new(Layer::with_filter(layer, filter_fn(move |meta| f.enabled(meta)))),
+            f => Box::new(layer.with_filter(filter_fn(move |meta| f.enabled(meta)))),
+        };
+        (boxed, storage)
+    }
+
+    /// `Registry::default().with(global?).with(l0).with(l1).with(l2)` (1-3 capture layers).
+    fn build_nested(&self) -> (Dispatch, Vec<SharedStorage>) {
+        let global = self.global.map(level_filter);
+        let base = Registry::default().with(global);
+        let (l0, s0) = self.make_layer(&self.layers[0]);
+        let sub = base.with(l0);
+        if self.layers.len() == 1 {
+            return (Dispatch::new(sub), vec![s0]);
+        }
+        let (l1, s1) = self.make_layer(&self.layers[1]);
+        let sub = sub.with(l1);
+        if self.layers.len() == 2 {
+            return (Dispatch::new(sub), vec![s0, s1]);
+        }
+        let (l2, s2) = self.make_layer(&self.layers[2]);
+        (Dispatch::new(sub.with(l2)), vec![s0, s1, s2])
+    }
+
     pub fn build(&self) -> (Dispatch, Vec<SharedStorage>) {
-        let storages: Vec<SharedStorage> = self.layers.iter().map(|_| SharedStorage::default()).collect();
+        if self.nested && self.pass.is_empty() && !self.per_layer && (1..=3).contains(&self.layers.len()) {
+            return self.build_nested();
+        }
+        let made: Vec<(Box<dyn Layer<Registry> + Send + Sync>, SharedStorage)> = self.layers.iter().map(|f| self.make_layer::<Registry>(f)).collect();
+        let (mut made_layers, storages): (Vec<_>, Vec<SharedStorage>) = made.into_iter().map(|(l, s)| (Some(l), s)).unzip();
         let mut layers: Vec<Box<dyn Layer<Registry> + Send + Sync>> = vec![];
         if let Some(g) = self.global {
             let lf = match g {
@@ -133,14 +188,9 @@ impl Config {
                     _ => Box::new(PassThrough::<3>),
                 });
             }
-            let layer = CaptureLayer::<Registry>::new(st);
-            match f.clone() {
-                Filt::All => layers.push(Box::new(layer)),
-                f if self.per_layer => {
-                    layers.push(Box::new(Layer::with_filter(layer, filter_fn(move |meta| f.enabled(meta)))));
-                }
-                f => layers.push(Box::new(layer.with_filter(filter_fn(move |meta| f.enabled(meta))))),
-            }
+            // a level threshold is given as the real `LevelFilter` (it carries a level hint)
+            let _ = (f, st);
+            layers.push(made_layers[i].take().expect("layer made"));
         }
         if self.pass.contains(&self.layers.len()) || self.per_layer {
             layers.push(Box::new(PassThrough::<9>));
@@ -683,6 +733,9 @@ impl Suite for Capture {
         if rng.chance(1, 4) {
             lines.push(format!("gfilter {}", rng.range(1, 4)));
         }
+        if rng.chance(1, 3) {
+            lines.push("nested 1".into());
+        }
         if focus == "C16" && rng.chance(1, 3) {
             // only for C16 (no panic, independence): under per-layer filtering the contextual parent is
             // tracing-subscriber's nearest *entered* span enabled for the filter, which is not the
@@ -803,7 +856,7 @@ impl Suite for Capture {
         // ---- C16: each layer captures what it would capture alone
         if cfg.layers.len() > 1 || !cfg.pass.is_empty() {
             for (i, f) in cfg.layers.iter().enumerate() {
-                let solo = Config { layers: vec![f.clone()], global: cfg.global, pass: vec![], per_layer: cfg.per_layer };
+                let solo = Config { layers: vec![f.clone()], global: cfg.global, pass: vec![], per_layer: cfg.per_layer, nested: cfg.nested };
                 let (st, p) = run_capture(&prog, &solo);
                 if p {
                     continue; // reported by the single-layer run of another case
